@@ -63,6 +63,45 @@ pub fn snf_shapes(s: &mut Src) -> R {
     Ok(())
 }
 
+/// C10, Hermite clause, on arbitrary shapes (BOUNDED, sampled): lll_hnf over BigInt on m x n matrices, m, n in 0..=5, any rank, entries
+/// |x| <= 40: H = P A, P P^-1 = I = P^-1 P, H in row echelon form (pivot columns strictly increasing, zero rows last), pivots positive,
+/// zeros below a pivot, entries above a pivot of strictly smaller absolute value; H does not depend on the requested transforms.
+pub fn hnf_shapes(s: &mut Src) -> R {
+    use yui_matrix::MatTrait;
+    use yui_matrix::dense::lll::lll_hnf;
+    use num_bigint::BigInt;
+    use num_traits::{Zero, Signed};
+    let (m, n) = (s.small(0, 5) as usize, s.small(0, 5) as usize);
+    let mut e = vec![0i64; 25];
+    for x in e.iter_mut() { let v = s.small(-60, 60); *x = if v.abs() > 40 { 0 } else { v }; }
+    let flags = [s.bool(), s.bool()];
+    reach!();
+    let data: Vec<BigInt> = (0..m).flat_map(|i| (0..n).map(move |j| (i, j))).map(|(i, j)| BigInt::from(e[i * 5 + j])).collect();
+    let a = Mat::from_data((m, n), data);
+    let (h, p, pinv) = lll_hnf(&a, [true, true]);
+    let (p, pinv) = (p.unwrap(), pinv.unwrap());
+    ob!(h.shape() == (m, n) && p.shape() == (m, m) && pinv.shape() == (m, m), "lll_hnf::shapes");
+    ob!(&p * &a == h, "lll_hnf::H==P.A");
+    ob!(&p * &pinv == Mat::id(m) && &pinv * &p == Mat::id(m), "lll_hnf::P.Pinv==I==Pinv.P");
+    let mut last: Option<usize> = None; let mut seen_zero_row = false;
+    for i in 0..m {
+        match (0..n).find(|&j| !h[(i, j)].is_zero()) {
+            None => { seen_zero_row = true; }
+            Some(j) => {
+                ob!(!seen_zero_row, "lll_hnf::zero-rows-last");
+                ob!(last.map(|l| l < j).unwrap_or(true), "lll_hnf::pivot-columns-strictly-increase");
+                ob!(h[(i, j)].is_positive(), "lll_hnf::pivots-normalised");
+                for i2 in i + 1..m { ob!(h[(i2, j)].is_zero(), "lll_hnf::zeros-below-a-pivot"); }
+                for i2 in 0..i { ob!(h[(i2, j)].abs() < h[(i, j)], "lll_hnf::entries-above-a-pivot-are-smaller"); }
+                last = Some(j);
+            }
+        }
+    }
+    let (h2, p2, q2) = lll_hnf(&a, flags);
+    ob!(h2 == h && p2.is_some() == flags[0] && q2.is_some() == flags[1], "lll_hnf::H-independent-of-requested-transforms");
+    Ok(())
+}
+
 /// the same over Z[i] (units other than +-1 exercise the inverse bookkeeping): 2x2, small entries
 pub fn snf_gauss_small(s: &mut Src) -> R {
     use yui::GaussInt;
@@ -421,4 +460,4 @@ pub fn snf_mat_ops(s: &mut Src) -> R {
     }
     Ok(())
 }
-crate::harness_table!(SNF: snf_small [unwind 4], snf_gauss_small [unwind 4], trans_small [unwind 4], lll_small [unwind 4], snf_mat_ops [unwind 4], lll_rows45 [unwind 4], spmat_ops_small [unwind 4], spvec_mat_ops_small [unwind 4], snf_shapes [unwind 4]);
+crate::harness_table!(SNF: snf_small [unwind 4], snf_gauss_small [unwind 4], trans_small [unwind 4], lll_small [unwind 4], snf_mat_ops [unwind 4], lll_rows45 [unwind 4], spmat_ops_small [unwind 4], spvec_mat_ops_small [unwind 4], snf_shapes [unwind 4], hnf_shapes [unwind 4]);
